@@ -504,6 +504,86 @@ def _costv_ids(vals: List[float], ids: Ids) -> List[int]:
     return [ids.of("costv", v.hex() if math.isfinite(v) else str(v)) for v in vals]
 
 
+PIT_OPT = {"tf": "train_features", "trf": "train_rf", "td": "train_dilation", "dc": "discrete_cost"}
+
+
+def _deciders(kind: str, m) -> List[Tuple[str, nn.Module]]:
+    """the modules that sample architectural coefficients: MPS quantisers / SuperNet combiners (in module order)"""
+    if kind == "mps":
+        from plinio.methods.mps.nn.qtz import MPSBaseQtz
+        return [(n, q) for n, q in m.named_modules() if isinstance(q, MPSBaseQtz)]
+    if kind == "sn":
+        from plinio.methods.supernet.nn.combiner import SuperNetCombiner
+        return [(n, q) for n, q in m.named_modules() if isinstance(q, SuperNetCombiner)]
+    return []
+
+
+def sampler_class(q) -> str:
+    """Classify the sampling routine of a quantiser / combiner by what it DOES (soft, training mode): 'none' leaves
+    theta_alpha untouched, 'gs' depends on the random stream, 'sm' does not.  Destructive: call on a copy only."""
+    q.hard_softmax = False
+    q.training = True
+    res = []
+    with torch.no_grad():
+        for sd in (11, 12):
+            q.theta_alpha = torch.full_like(q.theta_alpha.detach(), -7.0)
+            torch.manual_seed(sd)
+            q.sample_alpha()
+            res.append(q.theta_alpha.detach().clone())
+    if all(bool((r == -7.0).all()) for r in res):
+        return "none"
+    return "sm" if torch.equal(res[0], res[1]) else "gs"
+
+
+def _agg(vals: List[Any], none: Any = "-") -> Any:
+    vs = {json.dumps(v) for v in vals}
+    if not vs:
+        return none
+    return vals[0] if len(vs) == 1 else "mixed"
+
+
+def option_view(kind: str, m, mcopy, executed: set) -> Tuple[Dict[str, Any], str]:
+    """(aggregated option record, canonical JSON of the complete per-module option vector).
+    Stored options are read from the live model `m`; the sampler in force is classified behaviourally on the modules
+    of the faithful copy `mcopy`.  The complete vector covers every quantiser / combiner; the aggregate (used for the
+    model's predictions only) covers the LIVE ones: executed by the forward pass and with more than one alternative
+    (update_softmax_options may skip the others; a sampler over a single alternative cannot be classified)."""
+    tf = lambda b: "T" if b else "F"
+    if kind == "pit":
+        from plinio.methods.pit.nn.module import PITModule
+        layers = [(n, l) for n, l in m.named_modules() if isinstance(l, PITModule)]
+        vec = {"get": {o: bool(getattr(m, a)) for o, a in PIT_OPT.items()},
+               "layers": [[n] + [getattr(l, a, None) if not isinstance(getattr(l, a, None), torch.Tensor) else None
+                                 for a in PIT_OPT.values()] for n, l in layers]}
+        ldc = {bool(l.discrete_cost) for _, l in layers if hasattr(l, "discrete_cost")}
+        agg = {"temp": 0, "hard": "-", "gumbel": "-", "disable": "-", "samp": "-",
+               "tf": tf(m.train_features), "trf": tf(m.train_rf), "td": tf(m.train_dilation),
+               "dc": tf(m.discrete_cost) if ldc <= {bool(m.discrete_cost)} else "mixed"}
+        return agg, json.dumps(vec, sort_keys=True, default=str)
+    live = _deciders(kind, m)
+    cop = dict(_deciders(kind, mcopy))
+    rows, temps, hards, gums, diss, samps = [], [], [], [], [], []
+    for n, q in live:
+        t = q.temperature if kind == "mps" else q.softmax_temperature
+        t = int(round(float(t) * 1000))
+        multi = int(q.alpha.shape[0]) > 1
+        sp = sampler_class(cop[n]) if multi and n in cop else "?"
+        g, d = getattr(q, "gumbel_softmax", None), getattr(q, "disable_sampling", None)
+        rows.append([n, t, bool(q.hard_softmax), g, d, sp])
+        if not (multi and n in executed):
+            continue
+        temps.append(t)
+        hards.append(tf(q.hard_softmax))
+        samps.append(sp)
+        if g is not None:
+            gums.append(tf(g))
+        if d is not None:
+            diss.append(tf(d))
+    agg = {"temp": _agg(temps, 0) if _agg(temps, 0) != "mixed" else -1, "hard": _agg(hards), "gumbel": _agg(gums),
+           "disable": _agg(diss), "samp": _agg(samps), "tf": "-", "trf": "-", "td": "-", "dc": "-"}
+    return agg, json.dumps(rows, sort_keys=True, default=str)
+
+
 def observe(kind: str, m, x: torch.Tensor, ids: Ids, cs: str) -> Dict[str, Any]:
     """fingerprint + bookkeeping fields of the trace format"""
     rng0 = torch.get_rng_state()
@@ -531,6 +611,9 @@ def observe(kind: str, m, x: torch.Tensor, ids: Ids, cs: str) -> Dict[str, Any]:
     o["flags"] = ids.of("flags", json.dumps(flags))
     o["rg"] = ids.of("rg", json.dumps([bool(p.requires_grad) for p in m.parameters()]))
     o["theta"] = theta_class(kind, m)
+    # the stored sampled coefficients themselves (MPS: buffers, also in bth; SuperNet: plain attributes)
+    o["thv"] = ids.of("thv", _hash_items((n, q.theta_alpha) for n, q in _deciders(kind, m)
+                                         if isinstance(getattr(q, "theta_alpha", None), torch.Tensor)))
     o["cs"] = cs
     # everything below executes code of the model: on faithful copies only.  Cost and summary first, on a copy
     # that has NOT been forwarded (they must see the coefficients as they are stored right now).
@@ -561,7 +644,17 @@ def observe(kind: str, m, x: torch.Tensor, ids: Ids, cs: str) -> Dict[str, Any]:
     o["out"], o["outx"] = guarded("forward", lambda: ids.out(c(x)), (0, 0))
     c2 = safe_deepcopy(m)[0]
     c2.eval()
+    executed: set = set()
+    hooks = [q.register_forward_hook(lambda mod, i, out, _n=n: executed.add(_n) or None) for n, q in _deciders(kind, c2)]
     o["oute"], o["outex"] = guarded("forward(eval)", lambda: ids.out(c2(x)), (0, 0))
+    for h in hooks:
+        h.remove()
+    # options as stored in the live model + sampler in force, classified on the (now expendable) copy
+    agg, vec = guarded("options", lambda: option_view(kind, m, c2, executed),
+                       ({"temp": 0, "hard": "?", "gumbel": "?", "disable": "?", "samp": "?", "tf": "?", "trf": "?",
+                         "td": "?", "dc": "?"}, "raised"))
+    o["opt"] = agg
+    o["optv"] = ids.of("optv", vec)
     torch.set_rng_state(rng0)
     return o
 
@@ -592,6 +685,20 @@ def apply_c18(kind: str, m, act: Dict[str, Any], xf: torch.Tensor, xp: torch.Ten
             m(xf)
         elif a == "mode":
             m.train(bool(act["v"]))
+        elif a == "upd":
+            o, v = act["o"], int(act["v"])
+            if kind == "pit":
+                setattr(m, PIT_OPT[o], bool(v))
+            elif o == "temp":
+                m.update_softmax_options(temperature=v / 1000.0)
+            elif o == "hard":
+                m.update_softmax_options(hard=bool(v))
+            elif o == "gumbel" and kind == "mps":
+                m.update_softmax_options(gumbel=bool(v))
+            elif o == "disable" and kind == "mps":
+                m.update_softmax_options(disable_sampling=bool(v))
+            else:
+                raise MachineryError(f"option {o} does not exist for {kind}")
         else:
             raise MachineryError(f"unknown call {act}")
     except MachineryError:
@@ -611,20 +718,27 @@ def _same_obs(a: Dict[str, Any], b: Dict[str, Any]) -> bool:
 
 
 def run_c18(sc: Dict[str, Any]) -> Dict[str, Any]:
-    """scenario {kind, variant, init{train, hard, cs, fc}, wseed, acts} -> trace for specs/ObserversTrace.tla"""
+    """scenario {kind, variant, init{train, hard, gumbel, cs, fc}, wseed, acts} -> trace for specs/ObserversTrace.tla.
+    The full run and the erased run each own a random stream (saved / restored around every call and observation), so
+    that Gumbel sampling is reproducible and the two runs stay in lock-step as long as they consume the same numbers."""
     kind, variant, init, wseed = sc["kind"], sc["variant"], sc["init"], int(sc.get("wseed", 0))
     ids = Ids()
-    m, x = build(kind, variant, init, wseed)
-    xf = x * 0.7 + 0.1
-    _settle(kind, m, xf, wseed)
     cs = init.get("cs", "A")
+
+    def fresh(spec: str):
+        mm, xx = build(kind, variant, dict(init, cs=spec), wseed)       # (re-seeds the global RNG)
+        _settle(kind, mm, xx * 0.7 + 0.1, wseed)
+        return mm, xx, torch.get_rng_state()
+
+    m, x, rng1 = fresh(cs)
+    xf = x * 0.7 + 0.1
     o0 = observe(kind, m, x, ids, cs)
     hasbn = bn_live(m, xf)
+    torch.set_rng_state(rng1)
     # erased run: a second object from the same factory; the harness must be deterministic
-    m2, _ = build(kind, variant, init, wseed)
-    _settle(kind, m2, xf, wseed)
+    m2, _, rng2 = fresh(cs)
     r0 = observe(kind, m2, x, ids, cs)
-    if not _same_obs(o0, r0):
+    if not _same_obs(o0, r0) or not torch.equal(rng1, rng2):
         raise MachineryError(f"C18 harness: two constructions of the same scenario differ: "
                              f"{ {k: (o0[k], r0[k]) for k in o0 if o0[k] != r0[k]} }")
     # twins: the same model constructed directly with each other specification (reference for 'switching')
@@ -632,25 +746,28 @@ def run_c18(sc: Dict[str, Any]) -> Dict[str, Any]:
     for c in ("A", "B", "D"):
         if c == cs:
             continue
-        mt, _ = build(kind, variant, dict(init, cs=c), wseed)
-        _settle(kind, mt, xf, wseed)
+        mt, _, _ = fresh(c)
         ot = observe(kind, mt, x, ids, c)
-        if any(ot[k] != o0[k] for k in ("pnet", "pnas", "bbn", "bth", "bother", "out")):
+        if any(ot[k] != o0[k] for k in ("pnet", "pnas", "bbn", "bth", "bother", "out", "optv")):
             raise MachineryError("C18 harness: twin with another cost specification differs in its core")
         twins.append({"cs": c, "cost": ot["cost"], "costv": ot["costv"]})
     ev = []
     cs2 = cs
     for act in sc["acts"]:
         keys0 = public_dict_keys(m)
+        torch.set_rng_state(rng1)
         r = apply_c18(kind, m, act, xf, x, ids)
+        rng1 = torch.get_rng_state()
         if act["a"] == "setcs" and not r["err"]:
             cs = act["c"]
         o = observe(kind, m, x, ids, cs)
-        e = {"act": dict({"nobn": False, "n": "-", "c": "-", "v": False}, **act), "obs": o, "ret": r["ret"],
+        e = {"act": dict({"nobn": False, "n": "-", "c": "-", "v": False, "o": "-"}, **act), "obs": o, "ret": r["ret"],
              "err": r["err"], "rngadv": r["rngadv"], "dk": dict_key_diff(m, keys0, public_dict_keys(m)),
              "ref": {"has": False, "obs": o}}
         if act["a"] not in OBSERVER_OPS:
+            torch.set_rng_state(rng2)
             r2 = apply_c18(kind, m2, act, xf, x, ids)
+            rng2 = torch.get_rng_state()
             if act["a"] == "setcs" and not r2["err"]:
                 cs2 = act["c"]
             e["ref"] = {"has": True, "obs": observe(kind, m2, x, ids, cs2)}
